@@ -80,6 +80,7 @@ def check(ctx):
     ctx.floor('R1', 6, 'consumers of site indices')
     ctx.floor('R2', 2)
     ctx.floor('R3', 3)
+    ctx.include('C19', 'P', only=('R3',))   # rates / activation energies aggregate the counters of Jumps.split parts: the parts must use the same settings
     it = ctx.pipeline()
     declare_jumps_clean(ctx, it)
     tr, ju = it.transitions, it.jumps
